@@ -85,6 +85,10 @@ func init() {
 		rs := f.havocResults(st, sig)
 		h := f.c.heapGet(st, "G!lastRPCErr", ArrSort(SInt, SIfc))
 		f.c.heapSet(st, "G!lastRPCErr", Store(h, IntLit(0), rs[0]))
+		// and the number of RPCs that returned an error so far (rpcFails())
+		n := f.c.heapGet(st, "G!rpcFails", ArrSort(SInt, SInt))
+		cur := Select(n, IntLit(0))
+		f.c.heapSet(st, "G!rpcFails", Store(n, IntLit(0), Ite(Eq(rs[0], IfaceNil), cur, Add(cur, IntLit(1)))))
 		f.c.note("RPC delegate: arbitrary error result, no effect on local state (A-RPC)")
 		return rs
 	}
@@ -1392,9 +1396,84 @@ func modelSortSlice(f *Frame, st *State, e *ast.CallExpr, recv *Term, args []*Te
 	return nil
 }
 
+// sort.Sort / sort.Stable on a named slice type that implements sort.Interface with value receivers
+// (sort.Sort(structs.IntentionPrecedenceSorter(xs))): the slice variable afterwards holds a bijective rearrangement
+// of its old content in which the type's own Less(b, a) is false for all positions a < b.
+func modelSortSort(f *Frame, st *State, e *ast.CallExpr, recv *Term, args []*Term, sig *types.Signature) []*Term {
+	c := f.c
+	argX := unparen(e.Args[0])
+	st0 := f.typeOf(argX)
+	named, ok := types.Unalias(st0).(*types.Named)
+	if !ok {
+		f.fail(e, "sort.Sort: argument is not a named slice type")
+	}
+	if _, isSlice := named.Underlying().(*types.Slice); !isSlice {
+		f.fail(e, "sort.Sort: only slice-based sort.Interface implementations are modelled")
+	}
+	var lessFn *types.Func
+	for i := 0; i < named.NumMethods(); i++ {
+		if named.Method(i).Name() == "Less" {
+			lessFn = named.Method(i)
+		}
+	}
+	if lessFn == nil {
+		f.fail(e, "sort.Sort: type has no Less method")
+	}
+	lessFi := f.eng.funcs[lessFn.Origin()]
+	if lessFi == nil {
+		f.fail(e, "sort.Sort: body of Less unavailable")
+	}
+	// the variable that holds the slice: the operand of a conversion T(xs), or the argument itself
+	target := argX
+	if ce, isCall := argX.(*ast.CallExpr); isCall && len(ce.Args) == 1 {
+		if tv, ok := f.info.Types[ce.Fun]; ok && tv.IsType() {
+			target = unparen(ce.Args[0])
+		}
+	}
+	s := f.expr(st, target)
+	sl := c.slices[s.Sort]
+	if sl == nil {
+		f.fail(e, "sort.Sort on non-slice")
+	}
+	n := c.define(c.sliceLen(s), "sortn")
+	oldArr := c.define(c.sliceArr(s), "sortold")
+	newArr := c.fresh("sorted", ArrSort(SInt, sl.Elem))
+	c.nfresh++
+	id := c.nfresh
+	pi := c.declareFun(fmt.Sprintf("sortPi!%d", id), []Sort{SInt}, SInt)
+	inv := c.declareFun(fmt.Sprintf("sortInv!%d", id), []Sort{SInt}, SInt)
+	i := c.bvar("i", SInt)
+	pii := App(pi, SInt, i)
+	c.assume(st, Forall([]*Term{i}, Implies(And(Ge(i, IntLit(0)), Lt(i, n)),
+		And(Ge(pii, IntLit(0)), Lt(pii, n), Eq(App(inv, SInt, pii), i), Eq(Select(newArr, i), Select(oldArr, pii)))), Select(newArr, i)))
+	j := c.bvar("j", SInt)
+	invj := App(inv, SInt, j)
+	c.assume(st, Forall([]*Term{j}, Implies(And(Ge(j, IntLit(0)), Lt(j, n)),
+		And(Ge(invj, IntLit(0)), Lt(invj, n), Eq(App(pi, SInt, invj), j), Eq(Select(newArr, invj), Select(oldArr, j)))), Select(oldArr, j)))
+	ns := c.mkSlice(s.Sort, n, newArr)
+	switch target.(type) {
+	case *ast.Ident, *ast.SelectorExpr, *ast.IndexExpr, *ast.StarExpr:
+		f.store(st, f.lvalue(st, target), ns)
+	default:
+		f.fail(e, "sort.Sort: the sorted slice is not held in a variable")
+	}
+	a := c.bvar("a", SInt)
+	b := c.bvar("b", SInt)
+	w := st.clone()
+	w.pc = TTrue
+	c.inQuant++
+	rs := f.inlineFunc(w, lessFi, ns, []*Term{b, a}, e)
+	c.inQuant--
+	c.assume(st, Forall([]*Term{a, b}, Implies(And(Ge(a, IntLit(0)), Lt(a, b), Lt(b, n)), Not(rs[0]))))
+	c.note("sort.Sort: trusted in-place sort contract (bijective rearrangement, ordered by the type's Less)")
+	return nil
+}
+
 func init() {
 	models["sort.Slice"] = modelSortSlice
 	models["sort.SliceStable"] = modelSortSlice
+	models["sort.Sort"] = modelSortSort
+	models["sort.Stable"] = modelSortSort
 }
 
 // sortedParams: the slice-typed parameters (receiver included) of fi that its body hands to sort.Slice / sort.SliceStable
